@@ -383,6 +383,7 @@ fn c15_lines() -> Vec<String> {
     .map(|x| x.to_string())
     .collect();
     // out-of-range numbers and over-long argument lists
+    v.push("go depth 0".into());
     v.push("go depth 255".into());
     v.push("go depth 256".into());
     v.push("go depth 300".into());
@@ -560,6 +561,17 @@ pub fn c15_run(args: &Args) -> i32 {
             sessions.push((sss.clone(), true));
         }
         frontier = next;
+    }
+    // searches whose thread dies (no legal move at the root; depth 0) must not take the command
+    // loop with them - neither at once nor when the next go comes
+    let dead: Vec<Vec<String>> = vec![
+        vec!["position fen 7k/5Q2/6K1/8/8/8/8/8 b - - 0 1".into(), "go depth 2".into(), "go depth 2".into(), "go movetime 10".into()],
+        vec!["position fen 7k/5K2/6Q1/8/8/8/8/8 b - - 0 1".into(), "go infinite".into(), "stop".into(), "go depth 1".into()],
+        vec!["go depth 0".into(), "go depth 1".into(), "position startpos moves e2e4".into(), "go depth 1".into()],
+    ];
+    for d in dead {
+        sessions.push((d.clone(), false));
+        sessions.push((d, true));
     }
     let ran = AtomicU64::new(0);
     let search_panics = AtomicU64::new(0);
